@@ -12,6 +12,7 @@ except ImportError:
     # Python <= 3.9
     from collections import Iterable
 import copy
+import os
 import warnings
 
 from .structure import Structure
@@ -195,6 +196,10 @@ class Dendrogram(object):
         # Dictionary of currently-defined structures:
         structures = {}
 
+        # Verification hook (off unless ASTRODENDRO_VERIF=1): record the
+        # order in which pixels are processed
+        _verif_order = [] if os.environ.get('ASTRODENDRO_VERIF') == '1' else None
+
         # Loop from largest to smallest data_value value. Each time, check if
         # the pixel connects to any existing leaf. Otherwise, create new leaf.
         count = 0
@@ -207,6 +212,8 @@ class Dendrogram(object):
 
             data_value = data_values[i]
             coord = tuple(indices[i])
+            if _verif_order is not None:
+                _verif_order.append(coord)
 
             # Print stats
             count += 1
@@ -328,6 +335,9 @@ class Dendrogram(object):
 
         # Add dendrogram index
         self._index()
+
+        if _verif_order is not None:
+            self._verif_order = _verif_order
 
         # Return the newly-created dendrogram:
         return self
